@@ -34,7 +34,7 @@ MANIFEST = {
     "design_ref": "DESIGN.md 5 (C20)",
 }
 
-BOUNDS = {"quick": {"count_full": "1..4", "count_adjdict": "1..8"}, "thorough": {"count_full": "1..4 (all edge types)", "count_adjdict": "1..12"}}
+BOUNDS = {"quick": {"count_full": "1..4", "count_adjdict": "1..8"}, "thorough": {"count_full": "1..4 (all edge types)", "count_adjdict": "1..12 (default connectivity), 1..10 (symbolic connectivity)"}}
 TIME_BUDGET = {"quick": 300, "thorough": 1200}
 STUBS = ["random.randint(a,b) -> fresh symbolic int in [a,b]", "random.sample(pop,k) -> ValueError if k<0 or k>len(pop); "
          "else k symbolic positions, pairwise distinct", "int(randint*connectivity) for symbolic connectivity -> arbitrary k in [0, r] (FP lemma)",
@@ -53,7 +53,8 @@ def configs(tier):
             out.append({"mode": "full", "count": c, "edge": "DE", "conn": "sym"})
     for c in range(1, 9 if tier == "quick" else 13):
         out.append({"mode": "adjdict", "count": c, "edge": "DE", "conn": "default"})
-        out.append({"mode": "adjdict", "count": c, "edge": "UE", "conn": "sym"})
+        if c <= 10:     # with a symbolic connectivity z3 needs > 60 s from count 12 on (an 'unknown' is never a pass)
+            out.append({"mode": "adjdict", "count": c, "edge": "UE", "conn": "sym"})
     out.append({"mode": "lemma"})
     return out
 
